@@ -61,6 +61,8 @@ void AssignNode::assignArray(PSC::Context &ctx, const PSC::ArrayDirectAccessErro
         throw PSC::RuntimeError(token, ctx, "Cannot assign arrays of different data type");
     if (arr->dimensions != array->dimensions)
         throw PSC::RuntimeError(token, ctx, "Cannot assign arrays of different dimensions");
+    if (!arr->hasSameLayout(*array))
+        throw PSC::RuntimeError(token, ctx, "Cannot assign arrays of records with different definitions");
 
     arr->copyData(*array);
 }
@@ -129,6 +131,9 @@ std::unique_ptr<NodeResult> AssignNode::evaluate(PSC::Context &ctx) {
             var->get<PSC::Pointer>() = valueRes->get<PSC::Pointer>();
             break;
         case PSC::DataType::COMPOSITE:
+            // one type name can have two definitions (a TYPE in a procedure hiding a global one)
+            if (!var->get<PSC::Composite>().hasSameLayout(valueRes->get<PSC::Composite>()))
+                throw PSC::RuntimeError(token, ctx, "Cannot assign records with different definitions");
             var->get<PSC::Composite>() = valueRes->get<PSC::Composite>();
             break;
         case PSC::DataType::NONE:
